@@ -154,54 +154,45 @@ def run(c, prog):
 
     # --- interleave index maps
     def index_map(fn, store):
-        loops = for_loops(fn)
-        if len(loops) != 2:
-            raise core.AnchorMissing(f"{fn.path}: expected two nested for loops, found {len(loops)}")
-        (p1, it1, b1, _), (p2, it2, b2, _) = loops
-        l1, l2 = pat_binding_lids(p1), pat_binding_lids(p2)
-        r1, _ = core.place_root(it1)
-        r2, _ = core.place_root(it2)
+        """(position polynomial over canonical i = value index, j = byte index; buffer size polynomial).
+        Loop order, iterator-vs-index style and hoisted lets do not matter (algebra.LoopNest)."""
         param = fn.params[1]
-        if r1 != param["name"]:
-            raise core.AnchorMissing(f"{fn.path}: outer loop does not range over `{param['name']}`")
-        # inner loop must range over the outer element
-        inner_root = core.strip(it2)
-        while inner_root.get("k") == "MethodCall":
-            inner_root = core.strip(inner_root["recv"])
-        if inner_root.get("lid") != l1[1]:
-            raise core.AnchorMissing(f"{fn.path}: inner loop does not range over the outer element")
-        for fl, it in ((l1, it1), (l2, it2)):
-            if core.callee_generic(core.strip(it)) != "core::iter::traits::iterator::Iterator::enumerate":
-                raise core.AnchorMissing(f"{fn.path}: loop index does not come from enumerate()")
-        asg = only(assigns(b2), "assignment", fn)
-        side = asg["l"] if store else asg["r"]
-        idx = core.strip(side)
-        if idx.get("k") != "Index":
-            raise core.AnchorMissing(f"{fn.path}: assignment does not index the byte buffer")
-        # len local
-        env = {l1[0]: Poly.sym("i"), l2[0]: Poly.sym("j")}
-        for st in fn.body["b"]["stmts"]:
-            if st["k"] == "Let" and st["pat"]["k"] == "Binding" and "init" in st:
-                ini = core.strip(st["init"])
-                if ini.get("k") == "MethodCall" and ini["m"] == "len" and core.place_root(ini["recv"])[0] == param["name"]:
-                    env[st["pat"]["lid"]] = Poly.sym("len")
+        plid = param["lid"]
 
         def symfn(n):
-            if n.get("k") == "MethodCall" and n["m"] == "len" and core.place_root(n["recv"])[0] == param["name"]:
+            if n.get("k") == "MethodCall" and n["m"] == "len" and not n["args"] and core.place_root_lid(n["recv"])[0] == plid and not [p for p in core.place_root_lid(n["recv"])[1] if not p.startswith(".")]:
                 return Poly.sym("len")
             if n.get("k") == "Path" and n.get("res") == "ConstParam":
                 return Poly.sym("N")
             return None
-        poly = algebra.poly_eval(idx["r"], env, symfn)
-        # buffer size
+        ln = algebra.LoopNest(fn, symfn)
+        ln.run(fn.body)
+        if len(ln.moves) != 1:
+            raise core.AnchorMissing(f"{fn.path}: expected exactly one element move inside the loops, found {len(ln.moves)}")
+        dst, src, node = ln.moves[0]
+        buf, val = (dst, src) if store else (src, dst)
+        if val[0] != plid or len(val[1]) != 2 or len(buf[1]) != 1 or buf[0] == plid:
+            raise core.AnchorMissing(f"{fn.path}: the element move is not between a flat byte buffer and `{param['name']}[i][j]`")
+        syms = []
+        for dim, want_hi in ((0, Poly.sym("len")), (1, Poly.sym("N"))):
+            ix = val[1][dim]
+            if len(ix.d) != 1 or list(ix.d.values()) != [1] or len(list(ix.d)[0]) != 1:
+                raise NotAffine(f"{fn.path}: dimension {dim} of `{param['name']}` is indexed by `{ix}`, not by a loop variable")
+            sname = list(ix.d)[0][0]
+            lo, hi = ln.ranges.get(sname, (None, None))
+            if isinstance(hi, tuple):
+                hi = want_hi if (hi[1] == plid and hi[2] == dim) else None
+            if lo != Poly.const(0) or hi != want_hi:
+                raise NotAffine(f"{fn.path}: the loop over dimension {dim} of `{param['name']}` ranges over [{lo}, {hi}), not [0, {want_hi})")
+            syms.append(sname)
+        if syms[0] == syms[1]:
+            raise NotAffine(f"{fn.path}: both dimensions use the same loop variable")
+        ren = {syms[0]: "i", syms[1]: "j"}
+        poly = Poly({tuple(sorted(ren.get(x, x) for x in k)): v for k, v in buf[1][0].d.items()})
         size = None
         for n in core.walk_fn(fn):
             if n.get("k") == "Call" and n["f"].get("def") == "alloc::vec::from_elem":
-                size = algebra.poly_eval(n["args"][1], env, symfn)
-        # the other side of the assignment must be the element byte
-        other = core.strip(asg["r"] if store else asg["l"])
-        if other.get("lid") != l2[1]:
-            raise core.AnchorMissing(f"{fn.path}: assignment does not move the inner element byte")
+                size = algebra.poly_eval(n["args"][1], ln.env, symfn)
         return poly, size
 
     wf = prog.fn(WR + "write_interleaved_bytes")
